@@ -12,6 +12,11 @@ Decided (necessary conditions):
                  is_less_than_day / is_time_duration_unit hold exactly for H, M, S
   C10.assembly   every copy of the TIMEX/seconds assembly in BaseDurationParser has the reference normal form and the
                  copies agree (TIMEX from unit_map[source_unit], seconds from unit_value_map[source_unit], same num)
+  C10.span-seconds  field-wise PT..H..M..S durations of two clock times given to the second are the canonical split of
+                 end - start (tabulated over second borrow x minute difference x hour wrap); spans with a zero minute
+                 component losing their seconds are an observation (upstream truncation)
+  C10.year-span  hand-assembled (start,end,P{n}Y) year ranges name the stored dates and start + n years = end, for two-
+                 and four-digit years (self-consistency; the century pivot itself is not decided)
   C10.timespan   luis_time_span and generate_date_period_timex_unit_count, interpreted on sample ranges, give the
                  duration of (end - start); the period-type -> suffix table is D/W/M/Y
 """
@@ -671,6 +676,189 @@ class P:
 '''
 
 
+# ---- C10.span-seconds ---------------------------------------------------------------------------------------------
+
+def span_seconds_probe():
+    """(begin, end) clock times given to the second: second borrow x minute difference negative / zero / positive x hour wrap"""
+    day = _dt.datetime(2016, 11, 7)
+    begins = [(14, 15, 30), (9, 5, 45), (6, 40, 0), (23, 50, 59)]
+    out = []
+    for bh, bm, bs in begins:
+        for dh in (0, 2, 13):
+            for em in sorted({0, 5, 15, 40, 50, 59, bm}):
+                for es in sorted({0, 10, 30, 45, 59, bs}):
+                    out.append((day.replace(hour=bh, minute=bm, second=bs), day.replace(hour=(bh + dh) % 24, minute=em, second=es)))
+    return out
+
+
+def span_seconds_cell(tx, begin, end):
+    """None when the PT tail of `tx` is the canonical H/M/S split of (end - begin) mod 24 h; 'dropped' when it is that split without
+    its seconds component; else a description of what differs"""
+    import re
+    secs = int((end - begin).total_seconds()) % 86400
+    h, r = divmod(secs, 3600)
+    m, s = divmod(r, 60)
+    want = 'PT' + ('%dH' % h if h else '') + ('%dM' % m if m else '') + ('%dS' % s if s else '')
+    tail = tx[tx.rfind('PT'):].rstrip(')') if isinstance(tx, str) and 'PT' in tx else tx
+    if tail == want:
+        return None
+    if s and tail == 'PT' + ('%dH' % h if h else '') + ('%dM' % m if m else ''):
+        return 'dropped'
+    return '%s-%s -> %s (expected %s)' % (begin.strftime('%H:%M:%S'), end.strftime('%H:%M:%S'), tail, want)
+
+
+def reads_seconds(fn, params):
+    return {n.value.id for n in ast.walk(fn) if isinstance(n, ast.Attribute) and n.attr == 'second' and isinstance(n.value, ast.Name)
+            and n.value.id in params} == set(params)
+
+
+_SPAN_SECONDS_CONTROL = '''
+class P:
+    def build_span(self, left, right):
+        span_hour = right.hour - left.hour
+        span_min = right.minute - left.minute
+        if span_min < 0:
+            span_min += 60
+            span_hour -= 1
+        span_sec = right.second - left.second
+        if span_sec < 0:
+            span_sec += 60
+            span_min -= 1
+        if span_hour < 0:
+            span_hour += 24
+        span_timex = 'PT'
+        if span_hour != 0:
+            span_timex += f'{span_hour}H'
+        if span_min != 0:
+            span_timex += f'{span_min}M'
+        if span_sec != 0:
+            span_timex += f'{span_sec}S'
+        return span_timex
+'''
+
+
+# ---- C10.year-span ------------------------------------------------------------------------------------------------
+
+def year_span_sites(idx):
+    """every method of the date-time package whose TIMEX is hand-assembled as (start,end,P{<expr>}Y): [(mod, cls, fn, timex statement)]"""
+    out = []
+    for mod, cls, fn in idx.functions():
+        if not mod.name.startswith(DT) or cls is None:
+            continue
+        for st in ast.walk(fn):
+            if not (isinstance(st, ast.Assign) and isinstance(st.targets[0], ast.Attribute) and st.targets[0].attr == 'timex'
+                    and isinstance(st.value, ast.JoinedStr)):
+                continue
+            vals = st.value.values
+            for i, v in enumerate(vals):
+                if isinstance(v, ast.FormattedValue) and i > 0 and isinstance(vals[i - 1], ast.Constant) and str(vals[i - 1].value).endswith(',P') \
+                        and i + 1 < len(vals) and isinstance(vals[i + 1], ast.Constant) and str(vals[i + 1].value).startswith('Y'):
+                    out.append((mod, cls, fn, st))
+    return out
+
+
+_COMPOUND = (ast.If, ast.For, ast.While, ast.Try, ast.With)
+
+
+def year_span_inputs(cls, fn, timex_st):
+    """(index of the last top-level compound statement in front of the TIMEX statement that binds locals = the extraction of the years from
+    the text, the two locals it binds that the statements after it read)"""
+    if timex_st not in fn.body:
+        raise AnalysisError('%s.%s: the (start,end,P..Y) TIMEX is not assembled by a top-level statement' % (cls.name, fn.name))
+    i1 = fn.body.index(timex_st)
+    seed = stores = None
+    for i, st in enumerate(fn.body[:i1]):
+        if isinstance(st, _COMPOUND):
+            bound = {n.id for n in ast.walk(st) if isinstance(n, ast.Name) and isinstance(n.ctx, ast.Store)}
+            if bound:
+                seed, stores = i, bound
+    if seed is None:
+        raise AnalysisError('%s.%s: the statement that reads the two years from the text was not found' % (cls.name, fn.name))
+    read = {n.id for st in fn.body[seed + 1:i1 + 1] for n in ast.walk(st) if isinstance(n, ast.Name) and isinstance(n.ctx, ast.Load)}
+    inputs = sorted(stores & read)
+    if len(inputs) != 2:
+        raise AnalysisError('%s.%s: the two year locals handed from the extraction to the (start,end,P..Y) assembly were not identified (%s)'
+                            % (cls.name, fn.name, inputs))
+    return seed, inputs
+
+
+def year_span_eval(idx, cls, fn, timex_st, y1, y2, consts):
+    """interpret the run of top-level statements from the extraction of the years to the TIMEX statement, the two year locals (in name
+    order) holding the numbers y1, y2 read from the text -> (TIMEX, [begin date, end date] stored as the future value)"""
+    seed, inputs = year_span_inputs(cls, fn, timex_st)
+    i1 = fn.body.index(timex_st)
+    rec_name = timex_st.targets[0].value.id if isinstance(timex_st.targets[0].value, ast.Name) else None
+    if rec_name is None:
+        raise AnalysisError('%s.%s: the result record of the TIMEX is not a local' % (cls.name, fn.name))
+
+    def res(node):
+        if isinstance(node, ast.Attribute) and isinstance(node.value, ast.Name) and node.value.id == 'Constants' and node.attr in consts:
+            return consts[node.attr]
+        if ast.unparse(node) == 'DateUtils.min_value':
+            return _dt.datetime(1, 1, 1)
+        raise Undetermined('attribute %s' % ast.unparse(node)[:40])
+    ev = MiniEval(idx, cls, res)
+    rec = Obj()
+    env = {inputs[0]: y1, inputs[1]: y2, rec_name: rec}
+    try:
+        ev.block(fn.body[seed + 1:i1 + 1], env)
+    except _ReturnSignal:
+        return None, 'return'         # the function gives up on this pair (e.g. a guard against a backward range)
+    except Undetermined as e:
+        raise AnalysisError('%s.%s: the (start,end,P..Y) assembly cannot be interpreted: %s' % (cls.name, fn.name, e))
+    final = env.get(rec_name) if isinstance(env.get(rec_name), Obj) else rec
+    return getattr(final, 'timex', None), getattr(final, 'future_value', None)
+
+
+def year_span_problem(tx, fv):
+    """None when the (start,end,PnY) TIMEX names the two stored dates and n years after start is end; else what differs;
+    'unordered' when the stored range runs backwards (outside the property's ordered pairs)"""
+    import re
+    if fv == 'return':
+        return 'unordered'
+    if not (isinstance(fv, (list, tuple)) and len(fv) == 2 and all(isinstance(d, _dt.datetime) for d in fv)):
+        return 'the stored value is not a pair of dates (%r)' % (fv,)
+    d1, d2 = fv
+    if d2 < d1:
+        return 'unordered'
+    m = re.fullmatch(r'\(([^,()]+),([^,()]+),P(-?\d+)Y\)', tx) if isinstance(tx, str) else None
+    if not m:
+        return 'TIMEX %r is not of the form (start,end,PnY)' % (tx,)
+    f = lambda d: '%04d-%02d-%02d' % (d.year, d.month, d.day)
+    if (m.group(1), m.group(2)) != (f(d1), f(d2)):
+        return 'TIMEX %s names other end points than the resolved %s / %s' % (tx, f(d1), f(d2))
+    n = int(m.group(3))
+    if (d1.year + n, d1.month, d1.day) != (d2.year, d2.month, d2.day):
+        return '%s: %s plus %d years is not %s' % (tx, f(d1), n, f(d2))
+    return None
+
+
+# both orientations of every pair: which of the two locals is the begin year is not assumed, backward ranges are skipped
+YEAR_SPAN_PROBE = [p for a, b in ((1998, 2005), (2005, 2018), (98, 5), (95, 98), (5, 12), (98, 2005), (1998, 5), (99, 0), (2018, 2019))
+                   for p in ((a, b), (b, a))]
+
+_YEAR_SPAN_CONTROL = '''
+class P:
+    def _parse_year_to_year(self, source, reference):
+        result = DateTimeResolutionResult()
+        if match:
+            begin_year = int(match.group(1))
+            end_year = int(match.group(2))
+        begin_date = DateUtils.safe_create_from_min_value(begin_year + 1900 if begin_year < 100 else begin_year, 1, 1)
+        end_date = DateUtils.safe_create_from_min_value(end_year + 1900 if end_year < 100 else end_year, 1, 1)
+        result.future_value = [begin_date, end_date]
+        begin_timex = DateTimeFormatUtil.luis_date_from_datetime(begin_date)
+        end_timex = DateTimeFormatUtil.luis_date_from_datetime(end_date)
+        result.timex = f'({begin_timex},{end_timex},P{end_year - begin_year}Y)'
+        return result
+'''
+
+
+def dtp_for_control(idx):
+    """owner class for the embedded control snippets (gives the interpreter a module to resolve DateUtils / DateTimeFormatUtil from)"""
+    return idx.cls(DT + 'base_dateperiod.BaseDatePeriodParser')
+
+
 def _has_assembly(fn):
     tx = [n for n in ast.walk(fn) if isinstance(n, ast.Assign) and isinstance(n.targets[0], ast.Attribute)
           and n.targets[0].attr == 'timex' and isinstance(n.value, ast.JoinedStr)
@@ -866,6 +1054,11 @@ def run(chk):
              "differ or none is mentioned (tabulated with stubbed year extraction)", floor=8, control=True)
     chk.rule('C10.span', "hand-assembled (start,end,PT..H..M) durations denote end - start (tabulated for h 0..23 x m in 0,1,15,30,45,59)",
              floor=3, control=True)
+    chk.rule('C10.span-seconds', "field-wise (start,end,PT..H..M..S) durations of two clock times given to the second: every component is "
+             "canonical (no negative / >= 60 field) and the total is end - start (tabulated: second borrow x minute difference <0, 0, >0 x hour wrap)",
+             floor=1, control=True)
+    chk.rule('C10.year-span', "hand-assembled (start,end,P{n}Y) year ranges: the TIMEX names the stored dates and start plus the duration is end, "
+             "for years written with two and with four digits (assembly interpreted from the years read off the text)", floor=1, control=True)
     chk.rule('C10.borrow', "a date-time range with one dated end point: the undated point borrows the date of the other and each point keeps its "
              "own time of day (future and past values; merge_two_time_points interpreted)", floor=4, control=True)
     chk.rule('C10.timespan', 'luis_time_span / period unit count equal end - start; type->suffix table', floor=8, control=True)
@@ -1344,6 +1537,77 @@ def run_base(chk, idx, consts):
     ctx_ = span_eval_slice(idx, tp, cs.methods['merge_two_time_points'], 'end_time', 'begin_time', _dt.datetime(2016, 11, 7, 12, 0),
                            _dt.datetime(2016, 11, 7, 16, 30), consts)
     chk.control('C10.span', _parse_pt(ctx_)[0] != 270)
+
+    # ---- C10.span-seconds (the field-wise sites again, with end points given to the second)
+    sec_sites = 0
+    for mod, cls, fn, kind, info in sites:
+        if kind != 'time-fields':
+            continue
+        cons = '%s.%s' % (cls.name, fn.name)
+        if not reads_seconds(fn, list(info)):
+            chk.exempt('C10.span-seconds', mod.path, cons, 'the function does not read the seconds of both time points', 'no seconds field', fn.lineno)
+            continue
+        sec_sites += 1
+        wrong, dropped, n = [], [], 0
+        for b_, e_ in span_seconds_probe():
+            if b_.time() == e_.time():
+                continue
+            n += 1
+            why = span_seconds_cell(span_eval_function(idx, cls, fn, b_, e_), b_, e_)
+            if why == 'dropped':
+                dropped.append((b_, e_))
+            elif why:
+                wrong.append(why)
+        # the seconds of a span with a zero minute component are not written (the seconds suffix is nested under the minutes one: 14:15:10 to
+        # 16:15:30 -> PT2H): an upstream truncation of the same kind on every platform's Chinese parser, reported as an observation;
+        # seconds dropped while the minute component is non-zero are a verdict
+        bad_drop = [(b_, e_) for b_, e_ in dropped if (int((e_ - b_).total_seconds()) % 3600) // 60 != 0]
+        wrong += ['%s-%s: seconds dropped' % (b_.strftime('%H:%M:%S'), e_.strftime('%H:%M:%S')) for b_, e_ in bad_drop]
+        if len(dropped) > len(bad_drop):
+            chk.observe('%s: %d of %d probe spans with a zero minute component lose their seconds (e.g. %s to %s): known truncation, not a verdict'
+                        % (cons, len(dropped) - len(bad_drop), n, dropped[0][0].strftime('%H:%M:%S'), dropped[0][1].strftime('%H:%M:%S')))
+        chk.judge(not wrong, 'C10.span-seconds', mod.path, cons, '%d probe spans with seconds agree' % n if not wrong else
+                  '%d of %d differ; first: %s' % (len(wrong), n, '; '.join(wrong[:3])),
+                  '%s: the duration of a range of two clock times given to the second is not the canonical split of end - start: %s (%d of %d '
+                  'probe spans differ) - a borrow from a field must run before that field is itself normalised'
+                  % (cons, '; '.join(wrong[:4]), len(wrong), n), fn.lineno)
+    if sec_sites < 1:
+        raise AnalysisError('no field-wise two-time-point duration reads the seconds of its end points (expected the Chinese build_span)')
+    css = _FakeCls(ast.parse(_SPAN_SECONDS_CONTROL).body[0])
+    ctl_b, ctl_e = _dt.datetime(2016, 11, 7, 14, 15, 30), _dt.datetime(2016, 11, 7, 16, 15, 10)
+    chk.control('C10.span-seconds', reads_seconds(css.methods['build_span'], ['left', 'right'])
+                and span_seconds_cell(span_eval_function(idx, tp, css.methods['build_span'], ctl_b, ctl_e), ctl_b, ctl_e) not in (None, 'dropped')
+                and span_seconds_cell('PT1H59M40S', ctl_b, ctl_e) is None)
+
+    # ---- C10.year-span
+    ysites = year_span_sites(idx)
+    for mod, cls, fn, tst in ysites:
+        cons = '%s.%s' % (cls.name, fn.name)
+        chk.consulted(mod.path)
+        wrong, judged = [], 0
+        ynames = year_span_inputs(cls, fn, tst)[1]
+        for braw, eraw in YEAR_SPAN_PROBE:
+            tx, fv = year_span_eval(idx, cls, fn, tst, braw, eraw, consts)
+            why = year_span_problem(tx, fv)
+            if why == 'unordered':
+                continue
+            judged += 1
+            if why:
+                wrong.append('%s=%d, %s=%d -> %s' % (ynames[0], braw, ynames[1], eraw, why))
+        if judged < 6:
+            raise AnalysisError('%s: only %d of %d probe year pairs resolve to an ordered range' % (cons, judged, len(YEAR_SPAN_PROBE)))
+        chk.judge(not wrong, 'C10.year-span', mod.path, cons, '%d probe year pairs: TIMEX end points = stored dates, start + duration = end' % judged
+                  if not wrong else '%d of %d differ; first: %s' % (len(wrong), judged, '; '.join(wrong[:2])),
+                  '%s: the (start,end,duration) TIMEX of a year-to-year range is not self-consistent: %s (%d of %d probe pairs) - the duration '
+                  'must be computed from the same years the dates are built from' % (cons, '; '.join(wrong[:3]), len(wrong), judged), tst.lineno)
+    if not ysites:
+        raise AnalysisError('no hand-assembled (start,end,P{n}Y) TIMEX found (expected the Chinese _parse_year_to_year)')
+    cys = _FakeCls(ast.parse(_YEAR_SPAN_CONTROL).body[0])
+    cfn_ = cys.methods['_parse_year_to_year']
+    cst_ = next(st for st in cfn_.body if isinstance(st, ast.Assign) and isinstance(st.targets[0], ast.Attribute) and st.targets[0].attr == 'timex')
+    ctx_y, cfv_y = year_span_eval(idx, dtp_for_control(idx), cfn_, cst_, 98, 2005, consts)
+    ctx_o, cfv_o = year_span_eval(idx, dtp_for_control(idx), cfn_, cst_, 1998, 2005, consts)
+    chk.control('C10.year-span', year_span_problem(ctx_y, cfv_y) not in (None, 'unordered') and year_span_problem(ctx_o, cfv_o) is None)
 
     # ---- C10.borrow
     dtp = idx.cls(DT + 'base_datetimeperiod.BaseDateTimePeriodParser')
